@@ -462,12 +462,12 @@ func gen(r *sim.Rng, tier string) *sim.Case {
 		nKeys = []int{70, 100, 130}[r.N(3)] // rare: a map larger than any plausible batch size
 		c.Params["init_pct"] = r.Range(50, 100)
 	}
-	big := r.N(1000) < 8
+	big := r.N(1000) < 5
 	if big {
 		// a big map (thousands of live entries, nearly all of them present from the start):
 		// whatever an implementation does differently from some size on - recycling, chunked
 		// copies, background clean-up - happens here; Clear is frequent
-		nKeys = []int{8192, 8200, 10000, 16390}[r.N(4)]
+		nKeys = []int{8192, 8200, 10000, 16390, 65536, 65600, 70000}[r.Pick(8, 8, 8, 8, 1, 1, 1)] // (the biggest cost a tenth of a second per run)
 		c.Params["init_pct"] = 100 - r.N(2)*r.N(3)
 	}
 	c.Params["nkeys"] = nKeys
@@ -624,8 +624,8 @@ func setKeys(c *sim.Case) {
 	if nKeys < 4 {
 		nKeys = 4
 	}
-	if nKeys > 20000 {
-		nKeys = 20000
+	if nKeys > 80000 {
+		nKeys = 80000
 	}
 }
 
@@ -672,7 +672,7 @@ func build(c *sim.Case) enga.Instance {
 			present = (k*37+11)%100 < c.P("init_pct")
 		}
 		if present {
-			v := 0xF00 + k
+			v := 0xF00 + k%20000 // (the model keeps two bytes per value)
 			if c.P("elem") == 4 {
 				v = 0
 			}
